@@ -115,6 +115,12 @@ func init() {
 		&gtfsrt.FeedEntity{Id: sp("1"), TripUpdate: &gtfsrt.TripUpdate{Trip: &gtfsrt.TripDescriptor{TripId: sp("t1"), StartDate: sp("20240310"), StartTime: sp("25:30:00")},
 			StopTimeUpdate: []*gtfsrt.TripUpdate_StopTimeUpdate{{StopId: sp("S1"), Arrival: &gtfsrt.TripUpdate_StopTimeEvent{Time: i64(1710054060)}}}}},
 		&gtfsrt.FeedEntity{Id: sp("2"), TripUpdate: &gtfsrt.TripUpdate{Trip: &gtfsrt.TripDescriptor{TripId: sp("t2"), StartDate: sp("20241103")}}},
+		// a trip that starts at midnight, and mentions of "the same" trip without a start time, with a malformed one, without date:
+		// different trips whose identifiers differ in a has-flag only
+		&gtfsrt.FeedEntity{Id: sp("5a"), TripUpdate: &gtfsrt.TripUpdate{Trip: &gtfsrt.TripDescriptor{TripId: sp("t5"), RouteId: sp("R"), StartDate: sp("20240310"), StartTime: sp("00:00:00")}}},
+		&gtfsrt.FeedEntity{Id: sp("5b"), Vehicle: &gtfsrt.VehiclePosition{Trip: &gtfsrt.TripDescriptor{TripId: sp("t5"), RouteId: sp("R"), StartDate: sp("20240310")}}},
+		&gtfsrt.FeedEntity{Id: sp("5c"), Vehicle: &gtfsrt.VehiclePosition{Vehicle: &gtfsrt.VehicleDescriptor{Id: sp("v5")}, Trip: &gtfsrt.TripDescriptor{TripId: sp("t5"), RouteId: sp("R"), StartDate: sp("20240310"), StartTime: sp("0:00:00")}}},
+		&gtfsrt.FeedEntity{Id: sp("5d"), TripUpdate: &gtfsrt.TripUpdate{Trip: &gtfsrt.TripDescriptor{TripId: sp("t5"), RouteId: sp("R"), StartTime: sp("00:00:00")}}},
 		&gtfsrt.FeedEntity{Id: sp("3"), Alert: &gtfsrt.Alert{ActivePeriod: []*gtfsrt.TimeRange{{Start: u64(1710054000), End: u64(1710057600)}},
 			InformedEntity: []*gtfsrt.EntitySelector{{Trip: &gtfsrt.TripDescriptor{TripId: sp("t3"), StartDate: sp("20240310")}}}}})
 	Inputs["nyct"] = feed(1700000000,
@@ -140,8 +146,10 @@ func init() {
 	cal := "service_id,monday,tuesday,wednesday,thursday,friday,saturday,sunday,start_date,end_date\n"
 	StaticFiles["static-a"] = map[string]string{
 		"agency.txt":         "agency_id,agency_name,agency_url,agency_timezone\nb,B,http://b,America/New_York\na,A,http://a,UTC\nc,C,http://c,Asia/Kolkata\n",
-		"routes.txt":         "route_id,agency_id,route_type\nr2,a,1\nr1,b,3\nr3,c,2\n",
-		"stops.txt":          "stop_id,stop_name,parent_station,location_type\nst,Station,,1\np1,P1,st,0\np2,P2,st,\nx,X,,\n",
+		// (a routes row without id whose agency resolves, stops rows without id that carry coordinates: rejected rows
+		// whose partly built entities hold pointers)
+		"routes.txt":         "route_id,agency_id,route_type\nr2,a,1\n,b,3\nr1,b,3\nr3,c,2\n",
+		"stops.txt":          "stop_id,stop_name,parent_station,location_type,stop_lat,stop_lon\nst,Station,,1,40.5,-73.5\n,NoId,,0,40.25,-73.75\np1,P1,st,0,,\np2,P2,st,,40.1,\nx,X,,,,\n,NoId2,st,0,1.5,2.5\n",
 		"calendar.txt":       cal + "wk,1,1,1,1,1,0,0,20240101,20240630\nsa,0,0,0,0,0,1,0,20240101,20240630\nsu,0,0,0,0,0,0,1,20240101,20240630\nho,0,0,0,0,0,0,0,20240101,20240101\n",
 		"calendar_dates.txt": "service_id,date,exception_type\nxx,20240704,1\nwk,20240704,2\nyy,20240705,1\nzz,20231231,1\n",
 		"shapes.txt":         "shape_id,shape_pt_lat,shape_pt_lon,shape_pt_sequence\nsh2,1,1,2\nsh1,1,1,1\nsh3,2,2,1\nsh2,0,0,1\n",
